@@ -41,9 +41,13 @@ def main(ctx):
                 ctx.harness_errors.append('table encoding disagrees with the transitions library on %s' % d)
     # (b) execution level
     if ctx.quick:
-        cexs += run_e3(ctx, 'C01', 5, ms_variants=((2, 2), (3, 2)), suffix_styles=(0,), fillings=(False, True))
+        cexs += run_e3(ctx, 'C01', 5, ms_variants=((2, 2), (3, 2)), suffix_styles=(0, 3, 4), fillings=(False, True))
     else:
-        cexs += run_e3(ctx, 'C01', 7, ms_variants=((2, 2), (3, 2), (2, 3), (3, 3)), suffix_styles=(0, 1, 2), fillings=(False, True))
+        cexs += run_e3(ctx, 'C01', 7, ms_variants=((2, 2), (3, 2), (2, 3), (3, 3)), suffix_styles=(0, 1, 2, 3, 4), fillings=(False, True))
+    # known finding: a suffix on the FIRST occurrence of a step kind (legal by the 'stepname.xxx' convention) is rejected for the kinds the code
+    # looks up by their literal name; exhibited by its own small run, blocked only there
+    if 'KF-C01-suffixed-first-occurrence' in ctx.known_ids:
+        cexs += run_e3(ctx, 'C01', 3, ms_variants=((2, 2),), suffix_styles=(5,), fillings=(False,), histories=False, mirror=False, chunks=4)
     ctx.replay_all(cexs, MOD, 'replay')
     c['explanation'] = ('(a) live transition tables -> z3 transition relation; language equivalence with the documented automaton by BMC '
                         'over a symbolic word of length |Q|^2+1 with the recurrence-diameter unwinding assertion (so the bound is complete), '
